@@ -195,13 +195,24 @@ def roundtrip(part, row, fmt, var, tmpdir):
                     text = cur.to_poscar_string()
                     new = Crystal.from_vasp_string(text)
             else:
-                name = {"cif": "x.cif", "res": "x.res", "poscar": "POSCAR" if row["number"] % 2 else "CONTCAR"}[fmt]
+                # file names: the format is chosen by the extension (any letter case) for CIF / .res and by the exact NAME for
+                # POSCAR / CONTCAR - so a CIF called POSCAR.cif is a CIF; paths are given as str or as pathlib.Path
+                names_for = {"cif": ["x.cif", "POSCAR.cif", "my.structure.cif", "CONTCAR.cif", "X.CIF"], "res": ["x.res", "CONTCAR.res", "a.b.res", "POSCAR.res", "Y.RES"],
+                             "poscar": ["POSCAR", "CONTCAR"]}[fmt]
+                name = names_for[(row["number"] + g) % len(names_for)]
                 d = os.path.join(tmpdir, "%d_%s_%s" % (row["number"], abs(hash((row["choice"], var))) % 10 ** 8, g))
                 os.makedirs(d, exist_ok=True)
                 path = os.path.join(d, name)
-                cur.save(path)
-                text = open(path).read()
-                new = Crystal.load(path)
+                if row["number"] % 3 == 0:
+                    import pathlib
+
+                    cur.save(pathlib.Path(path))
+                    text = open(path).read()
+                    new = Crystal.load(pathlib.Path(path))
+                else:
+                    cur.save(path)
+                    text = open(path).read()
+                    new = Crystal.load(path)
                 shutil.rmtree(d, ignore_errors=True)
         except Exception as e:
             part.fail("roundtrip-raise:%s:%s:%s" % (fmt, vtag, sk), "%s round trip (%s) of %s raised %s: %s" % (fmt, vtag, sk, type(e).__name__, str(e)[:80]), case)
